@@ -465,6 +465,14 @@ func RunErrorsExamined(c *Ctx, pkgs []string) {
 			if !ok {
 				return true
 			}
+			// an error value that is *built* (oidc.ErrX().With..., fmt.Errorf, errors.New) is not the outcome of an operation
+			// that may have failed: keeping it in a variable for a later return is not an ignored failure
+			{
+				tb := &termBuilder{info: info, inl: map[types.Object]ast.Expr{}, fset: c.P.Fset}
+				if (&e1func{}).neverNil(tb.callTerm(call), nil) {
+					return true
+				}
+			}
 			for _, l := range as.Lhs {
 				id, ok := unparen(l).(*ast.Ident)
 				if !ok || id.Name == "_" {
